@@ -11,8 +11,30 @@ private def setStrOut : Option Int → List Tok
   | none => [.num (-1)]
   | some v => [.num 0, .num v]
 
+/-- exact number of base-`b` digits of `v > 0` without producing them: bisection on `n` with `b^n ≤ v`
+    (for operands of millions of bits, where `digitsOf` would take hours) -/
+partial def digitCountBig (b v : Nat) : Nat :=
+  let bits := Nat.log2 v + 1
+  let lb := Nat.log2 b
+  -- invariant: b^lo ≤ v < b^hi
+  let rec go (lo hi : Nat) : Nat :=
+    if hi ≤ lo + 1 then lo + 1 else
+    let mid := (lo + hi) / 2
+    if b ^ mid ≤ v then go mid hi else go lo mid
+  go ((bits - 1) / (lb + 1)) (bits / lb + 1)
+
 /-- number of digits the property speaks about: 1 for zero -/
-def digitCount (b : Nat) (x : Int) : Nat := if x = 0 then 1 else (digitsOf b x.natAbs).length
+def digitCount (b : Nat) (x : Int) : Nat :=
+  if x = 0 then 1
+  else if Nat.log2 x.natAbs < 200000 then (digitsOf b x.natAbs).length
+  else digitCountBig b x.natAbs
+
+/-- verdict on an mpz_sizeinbase answer `r` for a base that is not a power of two -/
+def sizeVerdict (b : Nat) (x : Int) (r : Int) : Option String :=
+  let d := digitCount b x
+  if !(r == Int.ofNat d || r == Int.ofNat (d + 1)) then some s!"range:digits={d}"
+  else if r != Int.ofNat (mpz_sizeinbase x b) then some s!"model:{mpz_sizeinbase x b}"
+  else none
 
 def handle : Handler
   | "mpz_get_str", [.num base, .num x] =>
@@ -76,14 +98,28 @@ def pred : PredHandler
       let b := base.toNat
       if pow2P b then none else
       match impl with
-      | [.num r] =>
-          let d := digitCount b x
-          if !(r == Int.ofNat d || r == Int.ofNat (d + 1)) then
-            some (some s!"range:digits={d}")
-          else if r != Int.ofNat (mpz_sizeinbase x b) then
-            some (some s!"model:{mpz_sizeinbase x b}")
-          else some none
+      | [.num r] => some (sizeVerdict b x r)
       | _ => some (some "output")
+  | "mpz_sizeinbase_pow", [.num base, .num n, .num d], impl =>
+      let b := base.toNat
+      let x : Int := Int.ofNat (b ^ n.toNat) + d
+      match impl with
+      | [.num r] =>
+          if pow2P b then (if r == Int.ofNat (mpz_sizeinbase x b) then some none else some (some s!"model:{mpz_sizeinbase x b}"))
+          else some (sizeVerdict b x r)
+      | _ => some (some "output")
+  | "mpz_get_str_pow_len", [.num base, .num n, .num d], impl =>
+      -- the string has exactly digitCount (+1 for a sign) characters and fits the buffer the library allocates
+      -- (sizeinbase + 1 + sign); an allocator overrun marker from the harness makes the output malformed here
+      let b := base.toNat
+      let x : Int := Int.ofNat (b ^ n.toNat) + d
+      let len := digitCount b x + (if x < 0 then 1 else 0)
+      match impl with
+      | [.num l, .num r] =>
+          if l != Int.ofNat len then some (some s!"strlen:{len}")
+          else if Int.ofNat len + 1 > r + 1 + (if x < 0 then 1 else 0) then some (some s!"buffer:{len}+1>{r}+1")
+          else some none
+      | _ => some (some "overrun-or-output")
   | _, _, _ => none
 
 end Mpir.Ops.Radix
